@@ -5,7 +5,8 @@ import time
 from harness import framework as fw
 
 PIPES = {
-    "C01": ["prog"],
+    "C01": ["prog", "search"],
+    "C02": ["search"],
     "C03": ["exact"],
     "C04": ["cfg", "prog"],
     "C05": ["cfg"],
